@@ -574,13 +574,16 @@ type precSem struct {
 	prec, par *ssa.Function
 	pos       string
 	names     map[int64]string
-	precIdx   int // index of the precedence parameter of paren
+	precIdx   int // index of the precedence parameter of paren (or of the parent expression, see parentForm)
 	exprIdx   int
-	cache     map[string]concrOutcome
+	// parentForm: paren(parent, operand Expr) computes the level itself (exprPrec(parent)) instead of being given it
+	parentForm bool
+	levelOf    map[int64][2]string // a node type/operator that exprPrec puts at the level (to stand for the parent)
+	cache      map[string]concrOutcome
 }
 
 func (w *World) readExprPrec() (*precSem, string) {
-	ps := &precSem{w: w, names: map[int64]string{}, cache: map[string]concrOutcome{}}
+	ps := &precSem{w: w, names: map[int64]string{}, cache: map[string]concrOutcome{}, levelOf: map[int64][2]string{}}
 	ps.prec = w.fn(w.Ast, "exprPrec")
 	if ps.prec == nil {
 		return nil, "ast.exprPrec not found"
@@ -619,6 +622,7 @@ func (w *World) readExprPrec() (*precSem, string) {
 			continue
 		}
 		pi, ei := -1, -1
+		parentForm := false
 		for i, p := range fn.Params {
 			if types.Identical(p.Type(), ps.prec.Signature.Results().At(0).Type()) {
 				pi = i
@@ -626,17 +630,45 @@ func (w *World) readExprPrec() (*precSem, string) {
 				ei = i
 			}
 		}
+		if pi < 0 && w.isAstExpr(fn.Params[0].Type()) && w.isAstExpr(fn.Params[1].Type()) {
+			// paren(parent, operand): the operand is the one whose SQL() is printed, the parent is only asked for its level
+			printed := func(p *ssa.Parameter) bool {
+				for _, u := range referrers(p) {
+					if c, ok := u.(*ssa.Call); ok && c.Call.IsInvoke() && c.Call.Method.Name() == "SQL" && c.Call.Value == ssa.Value(p) {
+						return true
+					}
+				}
+				return false
+			}
+			switch {
+			case printed(fn.Params[1]) && !printed(fn.Params[0]):
+				pi, ei, parentForm = 0, 1, true
+			case printed(fn.Params[0]) && !printed(fn.Params[1]):
+				pi, ei, parentForm = 1, 0, true
+			}
+		}
 		if pi >= 0 && ei >= 0 {
 			if ps.par != nil {
 				return nil, "two functions of package ast decide about parentheses from exprPrec: " + funcName(ps.par) + ", " + funcName(fn)
 			}
-			ps.par, ps.precIdx, ps.exprIdx = fn, pi, ei
+			ps.par, ps.precIdx, ps.exprIdx, ps.parentForm = fn, pi, ei, parentForm
 		}
 	}
 	if ps.par == nil {
 		return nil, "no function of package ast compares exprPrec of an operand with a given level (paren)"
 	}
 	return ps, ""
+}
+
+// parenFn: the function of package ast that decides about parentheses and the index of its operand parameter (cached).
+func (w *World) parenFn() (*ssa.Function, int) {
+	if !w.parenDone {
+		w.parenDone = true
+		if ps, _ := w.readExprPrec(); ps != nil {
+			w.parenF, w.parenExprIdx = ps.par, ps.exprIdx
+		}
+	}
+	return w.parenF, w.parenExprIdx
 }
 
 func (ps *precSem) operand(typ, opName string) cval {
@@ -665,6 +697,9 @@ func (ps *precSem) precOf(typ, opName string) (int64, string, bool) {
 	}
 	if len(out.vals) == 1 && out.vals[0].kind == cConst {
 		if v, ok := constant.Int64Val(out.vals[0].c); ok {
+			if _, has := ps.levelOf[v]; !has {
+				ps.levelOf[v] = [2]string{typ, opName}
+			}
 			return v, "", false
 		}
 	}
@@ -682,6 +717,13 @@ func (ps *precSem) name(v int64) string {
 func (ps *precSem) wraps(level int64, typ, opName string) (bool, string) {
 	args := make([]cval, 2)
 	args[ps.precIdx] = cval{kind: cConst, c: constant.MakeInt64(level)}
+	if ps.parentForm {
+		par, ok := ps.levelOf[level]
+		if !ok {
+			return false, fmt.Sprintf("%s takes the parent expression, and no node type is known at level %d to stand for it", funcName(ps.par), level)
+		}
+		args[ps.precIdx] = ps.operand(par[0], par[1])
+	}
 	args[ps.exprIdx] = ps.operand(typ, opName)
 	k := fmt.Sprintf("w%d/%s/%s", level, typ, opName)
 	out, ok := ps.cache[k]
